@@ -91,6 +91,15 @@ class Rec(dict):
         return self is o
 
 
+class _Undef:
+    """a cell of a local array that was declared without an initialiser and not written since"""
+    def __repr__(self):
+        return 'UNDEF'
+
+
+UNDEF = _Undef()
+
+
 class Vec:
     def __init__(self, items=None):
         self.items = items or []
@@ -681,6 +690,8 @@ class Interp:
             if ck == 'LValueToRValue':
                 if isinstance(s, LV):
                     s = s.load()
+                if s is UNDEF:
+                    raise Violation('a cell of a local array is read that was never written on this path (its value is whatever the stack held)', fn.loc(e))
                 val[i] = s
             elif ck in ('IntegralCast', 'IntegralToBoolean', 'NoOp', 'FunctionToPointerDecay', 'FloatingCast', 'ArrayToPointerDecay',
                         'ConstructorConversion', 'UserDefinedConversion', 'DerivedToBase', 'UncheckedDerivedToBase', 'BuiltinFnToFnPtr'):
@@ -851,6 +862,15 @@ class Interp:
                 if d.get('dk') != 'Var':
                     continue
                 if d.get('init') is None:
+                    import re as _re
+                    m_ = _re.search(r'\[(\d+)\]$', (d.get('t') or '').strip())
+                    if m_ and int(m_.group(1)) <= 64 and not (d.get('t') or '').strip().endswith(']['):
+                        # a fixed-size local array of scalars: cells hold UNDEF until written (reading one is a Violation); the array
+                        # value is the pointer to its first cell
+                        vec_ = Vec([UNDEF] * int(m_.group(1)))
+                        vec_.u8 = bool(_re.match(r'(const )?(graphite2::)?(byte|uint8|unsigned char|gr_uint8)\b', (d.get('t') or '').strip()))
+                        env[d['vid']] = It(vec_, 0)
+                        continue
                     env[d['vid']] = None
                     continue
                 v = V(d['init'])
@@ -1093,7 +1113,7 @@ class Interp:
             return args[0]
         if fq in ('be::swap',):
             return self.rv(args[0])              # byte order is a representation detail: the abstract cell holds the value
-        if fq in ('be::peek',):
+        if fq in ('be::peek',) and not (isinstance(self.rv(args[0]), It) and getattr(self.rv(args[0]).vec, 'u8', False)):
             p_ = self.rv(args[0])
             if isinstance(p_, It):
                 return self.deref_it(p_, fn, e).load()
@@ -1101,6 +1121,18 @@ class Interp:
         nat = self.natives.get(fq)
         if nat is not None:
             return nat(self, fn, e, obj, args)
+        if fq in ('memcpy', 'memmove', 'std::memcpy', '__builtin_memcpy'):
+            d_, s_, n_ = self.rv(args[0]), self.rv(args[1]), self.rv(args[2])
+            if isinstance(d_, It) and isinstance(s_, It) and isinstance(n_, int) and not isinstance(n_, bool) and 0 <= n_ <= 4096:
+                # cell-wise (both blocks are arrays of one-byte cells here): every source cell is read and every target cell written
+                # through the bounds-checked dereference
+                vals_ = [self.deref_it(It(s_.vec, s_.idx + j_, s_.gen), fn, e).load() for j_ in range(n_)]
+                for j_, v_ in enumerate(vals_):
+                    if getattr(d_.vec, 'u8', False) and isinstance(v_, int) and not isinstance(v_, bool):
+                        v_ &= 0xFF
+                    self.deref_it(It(d_.vec, d_.idx + j_, d_.gen), fn, e).store(v_)
+                return d_
+            self.broken(fn, e, 'memcpy of %s <- %s, %s' % (type(d_).__name__, type(s_).__name__, type(n_).__name__))
         key = self.lookup(fn, e)
         if key is None:
             self.broken(fn, e, 'callee %s has no facts and no model' % fq)
